@@ -204,9 +204,13 @@ class Engine:
         try:
             while self.worklist:
                 if self.timeout is not None and time.time() - t_start > self.timeout:
-                    raise Inconclusive('exploration time budget exhausted')
+                    ex = Inconclusive('exploration time budget exhausted')
+                    ex.paths = paths
+                    raise ex
                 if len(paths) >= self.max_paths:
-                    raise Inconclusive('path budget %d exhausted' % self.max_paths)
+                    ex = Inconclusive('path budget %d exhausted' % self.max_paths)
+                    ex.paths = paths          # the paths explored so far (still valid counterexample material)
+                    raise ex
                 prefix = self.worklist.pop()
                 self._reset(prefix)
                 result, exc = None, None
